@@ -17,6 +17,7 @@ PROP = ('propagate_dft', 'propagate_fft')
 
 
 class PtypeHooks(Hooks):
+    prefix = 'C08'
     def __init__(self, doc):
         self.doc = doc
         self.pre = None
